@@ -11,6 +11,7 @@ import (
 	"path/filepath"
 	"strconv"
 	"strings"
+	"sync"
 	"time"
 
 	"golang.org/x/tools/go/ssa"
@@ -111,6 +112,22 @@ func genericReplay(eng *Engine, ob *Obligation, repo, verif string) (reproduced 
 	m := &modelReader{fc: fc, s: sess, objs: map[string]*rObj{}, blocks: map[string]*rBlock{}}
 	defer func() { m.s.close() }() // shaping may have replaced the session
 	m.wmark = m.getInt("H0_W")
+	if sess.base != "sat" {
+		// short quantifier ranges, one preference at a time (those the candidate does not satisfy already)
+		nShaped := 0
+		for _, l := range strings.Split(prefer, "\n") {
+			l = strings.TrimSpace(l)
+			if !strings.HasPrefix(l, "(assert ") || nShaped >= 6 {
+				continue
+			}
+			t := strings.TrimSuffix(strings.TrimPrefix(l, "(assert "), ")")
+			if v, err := m.s.getValues([]string{t}); err == nil && v[0].String() == "false" {
+				nShaped++
+				m.shape(t)
+			}
+		}
+		m.wmark = m.getInt("H0_W")
+	}
 	if n, kept := m.refinePreconditions(spec); n > 0 {
 		detail["precondition_refinement"] = fmt.Sprintf("%d instances over the candidate's own ranges; refined candidate accepted: %v", n, kept)
 		m.wmark = m.getInt("H0_W")
@@ -364,31 +381,17 @@ func openModelSession(ob *Obligation, script, light, looseExtra, smallExtra, pre
 	// (push 1) right after set-logic selects z3's incremental core, which keeps a candidate model after `unknown`
 	script = strings.Replace(script, "(set-logic ALL)\n", "(set-logic ALL)\n(push 1)\n", 1) + "\n"
 	light = strings.Replace(light, "(set-logic ALL)\n", "(set-logic ALL)\n(push 1)\n", 1) + "\n"
-	var last string
-	for i, c := range order {
-		remaining := time.Until(deadline)
-		if remaining < 15*time.Second {
-			break
-		}
-		// one solver may use at most 40% of what is left (the model queries need the rest), later ones at most 20 s
-		per := remaining * 35 / 100
-		if i > 0 && per > 30*time.Second {
-			per = 30 * time.Second
-		}
-		if c.short && per > 15*time.Second {
-			per = 15 * time.Second
-		}
-		if c.small && per > 25*time.Second {
-			per = 25 * time.Second
-		}
-		if remaining < 45*time.Second {
-			break // keep time for reading the model
-		}
+	var mu sync.Mutex
+	var started []*smtSession
+	// one attempt in a fresh solver; returns the session on success
+	attempt := func(c cand, per time.Duration) (*smtSession, string) {
 		s, err := startSession(c.name, c.args, time.Now().Add(per))
 		if err != nil {
-			last = err.Error()
-			continue
+			return nil, err.Error()
 		}
+		mu.Lock()
+		started = append(started, s)
+		mu.Unlock()
 		sc := script
 		if c.candidate {
 			sc = light + looseExtra // replay_ground.go: heap typing axioms + ground instances of the preconditions
@@ -404,8 +407,7 @@ func openModelSession(ob *Obligation, script, light, looseExtra, smallExtra, pre
 		}
 		if err := s.write(sc); err != nil {
 			s.close()
-			last = err.Error()
-			continue
+			return nil, err.Error()
 		}
 		r := s.checkSat()
 		if r == "unknown" && !s.incompleteOnly() {
@@ -413,17 +415,78 @@ func openModelSession(ob *Obligation, script, light, looseExtra, smallExtra, pre
 		}
 		if r == "sat" || (r == "unknown" && c.candidate) {
 			if _, err := s.getValues([]string{"H0_W"}); err == nil {
-				s.deadline = deadline
 				s.base = r
 				s.args, s.script = c.args, sc
-				return s, c.name, nil
+				return s, ""
 			}
 			r += " (no model available)"
 		}
-		last = c.name + ": " + truncate(r, 200)
 		s.close()
+		return nil, c.name + ": " + truncate(r, 200)
 	}
-	return nil, "", fmt.Errorf("no solver produced a model or candidate model (%s)", last)
+	var last string
+	// solvers that can confirm a `sat` answer: one after the other (the first one normally answers at once)
+	var racers []cand
+	for _, c := range order {
+		if c.candidate {
+			racers = append(racers, c)
+			continue
+		}
+		per := time.Until(deadline) / 4
+		if per > 25*time.Second {
+			per = 25 * time.Second
+		}
+		if s, why := attempt(c, per); s != nil {
+			s.deadline = deadline
+			return s, c.name, nil
+		} else {
+			last = why
+		}
+	}
+	// candidate models: all variants race in parallel (each in its own solver process); the first usable one wins
+	per := time.Until(deadline) - 50*time.Second // keep time for reading the model
+	if per > 75*time.Second {
+		per = 75 * time.Second
+	}
+	if per < 10*time.Second {
+		return nil, "", fmt.Errorf("no time left for a candidate model (%s)", last)
+	}
+	type res struct {
+		s    *smtSession
+		name string
+		why  string
+	}
+	ch := make(chan res, len(racers))
+	for _, c := range racers {
+		go func(c cand) {
+			s, why := attempt(c, per)
+			ch <- res{s, c.name, why}
+		}(c)
+	}
+	for i := 0; i < len(racers); i++ {
+		r := <-ch
+		if r.s != nil {
+			left := len(racers) - i - 1
+			mu.Lock()
+			for _, s := range started { // stop the losers
+				if s != r.s {
+					go s.close()
+				}
+			}
+			mu.Unlock()
+			go func() {
+				for j := 0; j < left; j++ {
+					if x := <-ch; x.s != nil {
+						x.s.close()
+					}
+				}
+			}()
+			r.s.deadline = deadline
+			return r.s, r.name, nil
+		}
+		last += " | " + r.why
+	}
+	return nil, "", fmt.Errorf("no solver produced a model or candidate model (%s)", strings.TrimPrefix(last, " | "))
 }
 
 // runReplayTest injects zz_govc_replay_test.go into the package with -overlay and runs TestGovcReplay. The real code
